@@ -517,7 +517,7 @@ func (p *c11) Run(c *verifsim.Chooser, st *Stats, render bool) *Outcome {
 		return p.runCold(c, st, render)
 	}
 	o := &Outcome{}
-	currentDesc.Store("concurrency simulation")
+	setDesc("concurrency simulation")
 	verifsim.DiscardStdout()
 	defer verifsim.CaptureStdout()
 
